@@ -1009,3 +1009,6 @@ def workload(ctx):
     ctx.floor("big_polynomial_term_pairs", 50000)
     ctx.floor("poly_mapped", 1000)
     ctx.floor("quotient_nodes", 2000)
+
+
+RULE = RULE + '  Later additions: Fibonacci pairs up to 5000 division steps; real input without complex_dtype; one polynomial as both operands; coefficient rewrites with the value as a traversal argument; failed transforms before every judged one.'
